@@ -516,7 +516,10 @@ func TestFileReadDir(tb testing.TB, o FSOptions) {
 		var entries []hackpadfs.DirEntry
 		entries = append(entries, entries1...)
 		entries = append(entries, entries2...)
-		assert.Equal(tb, 2, len(entries))
+		if assert.Equal(tb, 2, len(entries)) {
+			// the second page continues where the first ended: a cursor that never advances returns the same entry twice
+			assert.NotEqual(tb, entries[0].Name(), entries[1].Name())
+		}
 		o.assertSubsetQuickInfos(tb, asQuickDirInfos(tb, entries), asQuickDirInfos(tb, entriesAll))
 		o.assertSubsetQuickInfos(tb, []quickInfo{
 			{Name: "bar", Mode: hackpadfs.ModeDir | 0700, IsDir: true},
